@@ -116,9 +116,9 @@ CLAIMED = {
         ref="DESIGN.md §4 C18"),
     "C17": dict(
         level="proof",
-        technique="Lean 4 theorems about a model of the legacy attribute parser (for every allow-list, parameter list and starting state) via a denotation into set-once atoms + differential run against the real get_meta_info through a guarded hook + tables of documented synonymous spellings and single-step corruptions run against the working-tree expansions (partial: the typed attribute parsers are decided by the tables only)",
-        text="Lean (legacy parser of the 20 State-configured derives, transcribed from parse_punctuated_nested_meta / get_meta_info): parseMetas equals applying the list of set-once atoms its parameters denote (parseMetas_eq, mutual induction); hence any permutation of the parameters gives the same MetaInfo or the same rejection (order_independent), a parameter outside the position's allow-list is rejected wherever it stands (unknown_rejected), a parameter given twice is rejected (repeated_rejected), a parameter and its not(..) negation are rejected in either order (contradiction_rejected), and a second attribute, the name-value form, an attribute where the allow-list is empty and the bare word where ignore is not allowed are rejected (attribute_forms_rejected). Tie: 6000 generated (allow-list, attribute list) inputs, model vs the real function. Typed attributes and fmt attributes: 39 hand-written + 226 generated pairs of documented alternative spellings (skip/ignore, bound/bounds, one attribute with several types vs several attributes in every order, trailing commas, order of independent attributes) must expand to the identical set of impls, and 73 single-step corruptions at documented positions (unknown, duplicated, conflicting, meaningless for the item kind, pre-1.0 syntax) must yield a diagnostic",
-        note="partial: Lean kernel for the legacy parser model; tables for the typed attributes",
+        technique="Lean 4 theorems about a model of the legacy attribute parser (for every allow-list, parameter list and starting state) via a denotation into set-once atoms, and about a model of the typed attribute parsers of From / AsRef / AsMut / TryFrom / Into (for every attribute list over classified arguments) + differential runs against the real get_meta_info through a guarded hook and against the working-tree verdict, diagnostic kind and expansion + theorem-licensed synonymous rewrites and tables of documented spellings / single-step corruptions run against the working-tree expansions (partial: fmt container attributes, ReprInt and Error's attributes are decided by the tables only)",
+        text="Lean (legacy parser of the 20 State-configured derives, transcribed from parse_punctuated_nested_meta / get_meta_info): parseMetas equals applying the list of set-once atoms its parameters denote (parseMetas_eq, mutual induction); hence any permutation of the parameters gives the same MetaInfo or the same rejection (order_independent), a parameter outside the position's allow-list is rejected wherever it stands (unknown_rejected), a parameter given twice is rejected (repeated_rejected), a parameter and its not(..) negation are rejected in either order (contradiction_rejected), and a second attribute, the name-value form, an attribute where the allow-list is empty and the bare word where ignore is not allowed are rejected (attribute_forms_rejected). Tie: 6000 generated (allow-list, attribute list) inputs, model vs the real function. Typed parsers (Dm.Model.TypedAttr, transcribed from utils.rs mod attr, into.rs and from.rs): several attributes that are type lists mean their concatenation, hence one attribute listing several types == several listing some each (many_type_lists, types_one_attribute_or_many; into_one_attribute_or_many / into_many_attributes_or_one for owned/ref/ref_mut lists); a trailing comma after a non-empty list changes nothing (trailing_comma, into_trailing_comma); skip == ignore (skip_ignore_synonyms, into_field_skip); any permutation of an accepted attribute list is accepted with the same types up to order (attribute_order_free, into_attribute_order_free); two attributes on one item are accepted only if both are type lists, so a repeated #[from] / forward / skip and any pair of different kinds are rejected (two_attributes_only_type_lists, into_struct_two_attributes); every argument of an accepted attribute is a type (or owned/ref/ref_mut with types), never a literal, nested list, keyword or legacy types(..) (accepted_arguments_are_types, from_legacy_rejected, into_accepted_arguments, legacy_rejected_anyway); TryFrom generates its conversion for exactly one #[try_from(repr)] (try_from_accepts_exactly). Tie: ~4000 generated argument lists over 7 attribute positions, model verdict + legacy-or-other diagnostic + expansion predicted through the C08/C14 models vs the working tree; ~1700 rewrites licensed by these theorems compared on the real expansions. Other typed attributes and fmt attributes: 39 hand-written + 226 generated pairs of documented alternative spellings (skip/ignore, bound/bounds, one attribute with several types vs several attributes in every order, trailing commas, order of independent attributes) must expand to the identical set of impls, and 73 single-step corruptions at documented positions (unknown, duplicated, conflicting, meaningless for the item kind, pre-1.0 syntax) must yield a diagnostic",
+        note="partial: Lean kernel for the legacy and typed parser models; tables for fmt container attributes, ReprInt, Error",
         ref="DESIGN.md §4 C17"),
     "C01": dict(
         level="proof",
